@@ -154,6 +154,7 @@ type c17Scenario struct {
 	entry    string // validate | checkstatus
 	callers  int
 	cache    bool
+	discard  bool // HTTPFetcher.DiscardCacheError (with cache)
 	inject   int    // max injected panics / cancellations
 	fetcher  string // http | fake (caller-supplied fetcher that parks)
 	stCaller []bool // per caller: supplies the reference signing time (default: none)
@@ -211,6 +212,10 @@ func c17Scenarios(tier mc.Tier) []mc.Scenario {
 	add(&c17Scenario{name: "validate-fakefetcher-FF", pattern: "FF", entry: "validate", callers: 1, inject: 1, fetcher: "fake"})
 	add(&c17Scenario{name: "validate-cache-F", pattern: "F", entry: "validate", callers: 1, cache: true, inject: 1, fetcher: "http"})
 	add(&c17Scenario{name: "validate-cache-FF", pattern: "FF", entry: "validate", callers: 1, cache: true, inject: 1, fetcher: "http"})
+	// the same with cache errors discarded (the cache is then only a courtesy: still nothing is left running, and a panic in it resurfaces)
+	add(&c17Scenario{name: "validate-cache-discard-errors-F", pattern: "F", entry: "validate", callers: 1, cache: true, discard: true, inject: 1, fetcher: "http"})
+	add(&c17Scenario{name: "validate-cache-discard-errors-FF", pattern: "FF", entry: "validate", callers: 1, cache: true, discard: true, inject: 1, fetcher: "http"})
+	add(&c17Scenario{name: "two-callers-cache-discard-errors-F", pattern: "F", entry: "validate", callers: 2, cache: true, discard: true, fetcher: "http"})
 	// two concurrent callers sharing validator, client, fetcher and cache
 	add(&c17Scenario{name: "two-callers-GG", pattern: "GG", entry: "validate", callers: 2, fetcher: "http"})
 	add(&c17Scenario{name: "two-callers-cache-F", pattern: "F", entry: "validate", callers: 2, cache: true, fetcher: "http"})
@@ -304,6 +309,7 @@ func (s *c17Scenario) body(c *mc.Ctx) {
 	}
 	if s.cache {
 		hf.Cache = &schedCache{s: sc, m: map[string]*corecrl.Bundle{}}
+		hf.DiscardCacheError = s.discard
 	}
 	var fetcher corecrl.Fetcher = hf
 	var handedOut []*corecrl.Bundle // bundles a caller-supplied fetcher gave to the library (shared objects)
